@@ -1,9 +1,143 @@
+import PbBss.Model.Psd
+import PbBss.Model.BfWrapper
 import Driver.Util
-/-! line-protocol operations of the `Psd` models (stub: filled in by the owner of these models) -/
+/-! line-protocol operations of the `Psd` and `BfWrapper` models (executable `driver_psd`) -/
+open PbBss PbBss.Psd PbBss.BfWrapper
 namespace Driver
+
+/-- `len` doubles starting at token `off` -/
+def floatsFrom (a : Array String) (off len : Nat) : Array Float :=
+  (Array.range len).map fun i => tokFloat a (off + i)
+
+def cxAt (xs : Array Float) (i : Nat) : CF := ⟨xs[2*i]!, xs[2*i+1]!⟩
+
+def fmtCx (xs : List CF) : String := fmtFloats (xs.flatMap fun z => [z.re, z.im])
+
+/-- row-major flat index -/
+def flatIdx (shape idx : List Nat) : Nat :=
+  (shape.zip idx).foldl (fun acc p => acc * p.1 + p.2) 0
+
+/-- all multi-indices of a shape in row-major order -/
+def allIdx : List Nat → List (List Nat)
+  | [] => [[]]
+  | s :: rest => (List.range s).flatMap fun i => (allIdx rest).map fun r => i :: r
+
+def natsFrom (a : Array String) (off len : Nat) : List Nat := (List.range len).map fun i => tokNat a (off + i)
+
+def prod (l : List Nat) : Nat := l.foldl (· * ·) 1
 
 def opsPsd (a : Array String) : Option String :=
   match a[0]! with
+  | "psd" | "psdbool" =>
+    -- psd <normalize> L K D T <floor> <obs L*D*T complex> <mask L*K*T doubles | 0/1>
+    let isBool := a[0]! == "psdbool"
+    let normalize := tokNat a 1 == 1
+    let L := tokNat a 2; let K := tokNat a 3; let D := tokNat a 4; let T := tokNat a 5
+    let floor := tokFloat a 6
+    let xs := floatsFrom a 7 (2 * L * D * T)
+    let moff := 7 + 2 * L * D * T
+    let ms : Array Float := if isBool then #[] else floatsFrom a moff (L * K * T)
+    some (fmtCx ((List.range L).flatMap fun l => (List.range K).flatMap fun k =>
+      let x : Fin D → Fin T → CF := fun d t => cxAt xs ((l * D + d.val) * T + t.val)
+      let p : Fin D → Fin D → CF :=
+        if isBool then
+          psdBool floor normalize x (fun t : Fin T => tokNat a (moff + (l * K + k) * T + t.val) == 1)
+        else
+          psd floor normalize x (fun t : Fin T => ms[(l * K + k) * T + t.val]!)
+      (List.finRange D).flatMap fun d => (List.finRange D).map fun e => p d e))
+  | "psdnomask" =>
+    -- psdnomask L D T <obs>
+    let L := tokNat a 1; let D := tokNat a 2; let T := tokNat a 3
+    let xs := floatsFrom a 4 (2 * L * D * T)
+    some (fmtCx ((List.range L).flatMap fun l =>
+      let x : Fin D → Fin T → CF := fun d t => cxAt xs ((l * D + d.val) * T + t.val)
+      let p := psdNoMask (α := Float) x
+      (List.finRange D).flatMap fun d => (List.finRange D).map fun e => p d e))
+  | "psdfull" =>
+    -- psdfull n <shape n> sd+64 so+64 td+64 kind mndim <mshape mndim> normalize <floor> <obs> <mask>
+    let n := tokNat a 1
+    let shape := natsFrom a 2 n
+    let dim (i : Nat) : Int := (tokNat a (2 + n + i) : Int) - 64
+    let kind := tokNat a (5 + n)
+    let mndim := tokNat a (6 + n)
+    let mshape := natsFrom a (7 + n) mndim
+    let o := 7 + n + mndim
+    let cfg : Cfg := ⟨n, dim 0, dim 1, dim 2, tokNat a o == 1⟩
+    let floor := tokFloat a (o + 1)
+    let nx := prod shape
+    let xs := floatsFrom a (o + 2) (2 * nx)
+    let ms := floatsFrom a (o + 2 + 2 * nx) (if kind == 0 then 0 else prod mshape)
+    let x : List Nat → CF := fun idx => cxAt xs (flatIdx shape idx)
+    let mask : MaskArg Float :=
+      if kind == 0 then .absent
+      else if kind == 1 then .float mndim (fun idx => ms[flatIdx mshape idx]!)
+      else .bool mndim (fun idx => ms[flatIdx mshape idx]! == 1.0)
+    let oshape := outShape cfg shape (if kind == 0 then none else some mshape)
+    some (fmtCx ((allIdx oshape).map fun out => psdFull cfg floor shape x mask out))
+  | "condcov" =>
+    -- condcov L D <gamma> <phi L*D*D complex>
+    let L := tokNat a 1; let D := tokNat a 2
+    let gamma := tokFloat a 3
+    let xs := floatsFrom a 4 (2 * L * D * D)
+    some (fmtCx ((List.range L).flatMap fun l =>
+      let phi : Fin D → Fin D → CF := fun d e => cxAt xs ((l * D + d.val) * D + e.val)
+      let p := condCov gamma phi
+      (List.finRange D).flatMap fun d => (List.finRange D).map fun e => p d e))
+  | "dispatch" =>
+    -- dispatch len <char codes>   ->   accepted hasch ch ntrace <prim codes>
+    let len := tokNat a 1
+    let name := (natsFrom a 2 len).map Char.ofNat
+    match dispatch name with
+    | none => some "0 0 0 0"
+    | some p =>
+      let (hasch, ch) := match p.core with | .ch k => (1, k) | _ => (0, 0)
+      let tr := (trace p).map Prim.code
+      some (fmtNats ([1, hasch, ch, tr.length] ++ tr))
+  | "applybf" =>
+    -- applybf N D T <w N*D complex> <x N*D*T complex>
+    let N := tokNat a 1; let D := tokNat a 2; let T := tokNat a 3
+    let ws := floatsFrom a 4 (2 * N * D)
+    let xs := floatsFrom a (4 + 2 * N * D) (2 * N * D * T)
+    some (fmtCx ((List.range N).flatMap fun l =>
+      let y := applyBf Float (fun d : Fin D => cxAt ws (l * D + d.val))
+        (fun (d : Fin D) (t : Fin T) => cxAt xs ((l * D + d.val) * T + t.val))
+      (List.finRange T).map y))
+  | "phase" =>
+    -- phase L F D <v L*F*D complex>       (F >= 1)
+    let L := tokNat a 1; let F := tokNat a 2; let D := tokNat a 3
+    let vs := floatsFrom a 4 (2 * L * F * D)
+    match F with
+    | 0 => some ""
+    | F' + 1 =>
+      some (fmtCx ((List.range L).flatMap fun l =>
+        let v : Fin (F'+1) → Fin D → CF := fun f d => cxAt vs ((l * (F'+1) + f.val) * D + d.val)
+        let r := phaseCorrection Float v
+        (List.finRange (F'+1)).flatMap fun f => (List.finRange D).map fun d => r f d))
+  | "phasefull" =>
+    -- phasefull n <shape> <v>
+    let n := tokNat a 1
+    let shape := natsFrom a 2 n
+    let vs := floatsFrom a (2 + n) (2 * prod shape)
+    let x : List Nat → CF := fun idx => cxAt vs (flatIdx shape idx)
+    some (fmtCx ((allIdx shape).map fun idx => phaseFull Float shape x idx))
+  | "phaseaxis0" =>
+    let n := tokNat a 1
+    let shape := natsFrom a 2 n
+    let vs := floatsFrom a (2 + n) (2 * prod shape)
+    let x : List Nat → CF := fun idx => cxAt vs (flatIdx shape idx)
+    some (fmtCx ((allIdx shape).map fun idx => phaseFullAxis0 Float shape x idx))
+  | "stablesolve" =>
+    -- stablesolve n m <flags n> <solve n*m complex> <lstsq n*m complex>
+    let n := tokNat a 1; let m := tokNat a 2
+    let flags := natsFrom a 3 n
+    let sol := floatsFrom a (3 + n) (2 * n * m)
+    let lsq := floatsFrom a (3 + n + 2 * n * m) (2 * n * m)
+    let row (xs : Array Float) (i : Nat) : List CF := (List.range m).map fun j => cxAt xs (i * m + j)
+    let single : Fin n → Option (List CF) := fun i => if flags.getD i.val 0 == 1 then none else some (row sol i.val)
+    let batched : Option (Fin n → List CF) :=
+      if flags.all (· == 0) then some (fun i => row sol i.val) else none
+    let r := stableSolve batched single (fun i => row lsq i.val)
+    some (fmtCx ((List.finRange n).flatMap r))
   | _ => none
 
 end Driver
